@@ -146,6 +146,7 @@ class OperatorTable(Expression):
                 out += BREAK
 
             out += Code('_prec') << RESULT[0]
+            out += Code('_is_chained') << False
 
             with out.WHILE(operator_stack):
                 out += Code('_top_prec, _top_assoc, _') << operator_stack[-1]
@@ -153,10 +154,16 @@ class OperatorTable(Expression):
                 with out.IF(Code(f'_top_prec < _prec or (_top_prec == _prec and _top_assoc == 1)')):
                     pop_operator()
                 with out.ELIF(Code(f'_top_prec == _prec and _top_assoc == 3')):
+                    # A non-associative operator cannot be chained: the
+                    # expression ends before the second operator.
                     out += (POS << outer_checkpoint)
+                    out += Code('_is_chained') << True
                     out += BREAK
                 with out.ELSE():
                     out += BREAK
+
+            with out.IF(Code('_is_chained')):
+                out += BREAK
 
             out += operator_marker << Code(f'len({operator_stack})')
             out += operator_stack.append(RESULT)
